@@ -250,3 +250,6 @@ func (w *World) Deliver(t *Tx) *Result {
 }
 
 var _ = model.ResetScripts
+
+// LastErr keeps the last ante / message error text (debugging aid; not part of any assertion).
+var LastErr string
